@@ -1086,7 +1086,8 @@ def rw_tostring_reeval(rng, prog, strict):
         return None
     f = rng.choice(fs)
     pre = "'use strict'; " if strict else ''
-    p['body'].insert(0, ('raw', '%s = (0, eval)(%s + "(" + %s.toString() + ")");' % (f, json.dumps(pre), f)))
+    # `void`: the inserted statement must not contribute a completion value of its own
+    p['body'].insert(0, ('raw', 'void (%s = (0, eval)(%s + "(" + %s.toString() + ")"));' % (f, json.dumps(pre), f)))
     return p
 
 
@@ -1148,31 +1149,79 @@ def switch_lexical_dynamic(x):
 # (used to attribute a failure to a known goja defect: dead code must not matter, so a failure that
 #  disappears when dead / no-op syntax is neutralised is attributable to how that syntax was compiled)
 
+class _Undef:
+    pass
+
+
+UNDEF = _Undef()
+
+
 def const_eval(e):
-    """Value of a constant expression (the subset goja folds), or None if not constant / unknown."""
+    """Value of a constant expression (literals combined by the operators goja folds), or None if the
+    expression is not constant / outside this evaluator.  undefined is the UNDEF sentinel, null is ().  """
     t = e[0]
     if t == 'bool': return bool(e[1])
     if t == 'num': return int(e[1])
     if t == 'str': return str(e[1])
-    if t == 'un' and e[1] == 'not':
+    if t == 'undef': return None        # `undefined` is a global lookup for goja, not a constant
+    if t == 'null': return ()
+    if t == 'un':
         v = const_eval(e[2])
-        return None if v is None else (not js_truthy(v))
+        if v is None: return None
+        if e[1] == 'not': return not js_truthy(v)
+        if e[1] == 'void': return UNDEF
+        if e[1] == 'typeof':
+            return ('boolean' if isinstance(v, bool) else 'number' if isinstance(v, int) else 'string' if isinstance(v, str)
+                    else 'undefined' if v is UNDEF else 'object')
+        if e[1] in ('neg', 'plus') and isinstance(v, int) and not isinstance(v, bool):
+            return -v if e[1] == 'neg' else v
+        return None
     if t == 'bin':
         a, b = const_eval(e[2]), const_eval(e[3])
-        if a is None or b is None or type(a) != type(b) or isinstance(a, bool):
-            return None
+        if a is None or b is None: return None
         op = e[1]
-        if op == 'lt': return a < b
-        if op == 'le': return a <= b
-        if op == 'gt': return a > b
-        if op == 'ge': return a >= b
-        if op == 'seq': return a == b
-        if op == 'sne': return a != b
+        num = lambda x: isinstance(x, int) and not isinstance(x, bool)
+        if op in ('seq', 'sne'):
+            eq = (type(a) == type(b) and a == b) or (a is UNDEF and b is UNDEF)
+            return eq if op == 'seq' else not eq
+        if op == 'add':
+            if num(a) and num(b): return a + b
+            if isinstance(a, str) or isinstance(b, str):
+                f = lambda x: x if isinstance(x, str) else ('true' if x is True else 'false' if x is False else 'undefined' if x is UNDEF
+                                                          else 'null' if x == () else str(x))
+                return f(a) + f(b)
+            return None
+        if num(a) and num(b):
+            if op == 'sub': return a - b
+            if op == 'mul': return a * b
+            if op == 'mod':
+                if b == 0: return None
+                r = abs(a) % abs(b)
+                return -r if a < 0 else r
+        if (num(a) and num(b)) or (isinstance(a, str) and isinstance(b, str)):
+            if op == 'lt': return a < b
+            if op == 'le': return a <= b
+            if op == 'gt': return a > b
+            if op == 'ge': return a >= b
+        return None
+    if t == 'logic':
+        a = const_eval(e[2])
+        if a is None: return None
+        if e[1] == 'and': return a if not js_truthy(a) else const_eval(e[3])
+        if e[1] == 'or': return a if js_truthy(a) else const_eval(e[3])
+        if e[1] == 'nullish': return const_eval(e[3]) if (a is UNDEF or a == ()) else a
+        return None
+    if t == 'cond':
+        c = const_eval(e[1])
+        if c is None: return None
+        return const_eval(e[2] if js_truthy(c) else e[3])
+    if t == 'comma':
         return None
     return None
 
 
 def js_truthy(v):
+    if v is UNDEF or v == (): return False
     if isinstance(v, bool): return v
     if isinstance(v, int): return v != 0
     if isinstance(v, str): return v != ''
@@ -1182,7 +1231,12 @@ def js_truthy(v):
 def map_ast(x, fs, fe, in_dead=False):
     """Rebuild an AST applying fs(stmt, in_dead) / fe(expr) bottom-up where they return non-None."""
     if isinstance(x, list):
-        return [map_ast(y, fs, fe, in_dead) for y in x]
+        out, dead = [], in_dead
+        for y in x:
+            out.append(map_ast(y, fs, fe, dead))
+            if isinstance(y, tuple) and y and y[0] in ('break', 'continue', 'return', 'throw'):
+                dead = True          # the rest of this statement list is unreachable
+        return out
     if isinstance(x, dict):
         return {k: map_ast(v, fs, fe, False) if k == 'body' or k == 'params' else v for k, v in x.items()}
     if not isinstance(x, tuple) or not x:
@@ -1228,3 +1282,26 @@ def nonsimple_params_with_raw(x):
     if isinstance(x, (tuple, list)):
         return any(nonsimple_params_with_raw(y) for y in x)
     return False
+
+
+def split_try_catch_finally(x):
+    """try B catch C finally F  ==>  try { try B catch C } finally F  (equivalent by ECMA-262, incl. completion
+    value); used to attribute failures to the known defect where an exception thrown by F reaches C."""
+    if isinstance(x, list):
+        return [split_try_catch_finally(y) for y in x]
+    if isinstance(x, dict):
+        return {k: split_try_catch_finally(v) if k in ('body', 'params') else v for k, v in x.items()}
+    if not isinstance(x, tuple) or not x:
+        return x
+    y = tuple(split_try_catch_finally(z) if isinstance(z, (tuple, list, dict)) else z for z in x)
+    if y[0] == 'try' and len(y) == 7 and y[2] and y[5]:
+        inner = ('try', y[1], True, y[3], y[4], False, [])
+        return ('try', [inner], False, None, [], True, y[6])
+    return y
+
+
+def toplevel_fdecl_and_lexical(prog):
+    """Script-level function declaration together with a script-level let/const (classifier for the known
+    sloppy-direct-eval defect: such functions do not see the eval code's own lexical declarations)."""
+    b = prog['body']
+    return any(st[0] == 'fdecl' for st in b) and any(st[0] == 'decl' and st[1] in ('let', 'const') for st in b)
